@@ -27,6 +27,8 @@ pub const REAL: &str = "cookie";
 pub enum Dg {
     Correct,
     WrongCookie,
+    /// the digest of a cookie that differs from the real one in one place only (see `near_cookie`)
+    Near(u8),
     Empty,
     Prefix(u8),
     Extended,
@@ -34,11 +36,40 @@ pub enum Dg {
     Zero32,
 }
 
+/// a cookie that is not `real` but close to it: a suffix added, the last byte changed or dropped, the first byte
+/// changed, a byte beyond position 60 / 32 / 16 changed (long cookies)
+pub fn near_cookie(real: &str, k: u8) -> Vec<u8> {
+    let mut c = real.as_bytes().to_vec();
+    let n = c.len();
+    match k % 7 {
+        1 if n > 0 => c[n - 1] ^= 1,
+        2 if n > 0 => {
+            c.pop();
+        }
+        3 if n > 0 => c[0] ^= 0x20,
+        4 if n > 61 => c[61] ^= 2,
+        5 if n > 33 => c[33] ^= 4,
+        6 if n > 17 => c[17] ^= 8,
+        _ => c.push(b'x'),
+    }
+    c
+}
+
+/// SHA-256(challenge big-endian ‖ cookie bytes), computed independently of the crate
+pub fn sha_digest_bytes(cookie: &[u8], challenge: u32) -> Vec<u8> {
+    use sha2::Digest;
+    let mut h = sha2::Sha256::new();
+    h.update(challenge.to_be_bytes());
+    h.update(cookie);
+    h.finalize().to_vec()
+}
+
 pub fn digest(dg: Dg, real: &str, challenge: u32) -> Vec<u8> {
     let good = sha_digest(real, challenge);
     match dg {
         Dg::Correct => good,
         Dg::WrongCookie => sha_digest(&format!("{real}x"), challenge),
+        Dg::Near(k) => sha_digest_bytes(&near_cookie(real, k), challenge),
         Dg::Empty => vec![],
         Dg::Prefix(k) => good[..(k as usize % 32)].to_vec(),
         Dg::Extended => {
@@ -93,6 +124,7 @@ pub fn amsg_strategy() -> BoxedStrategy<AMsg> {
     let dg = prop_oneof![
         4 => Just(Dg::Correct),
         2 => Just(Dg::WrongCookie),
+        3 => (0u8..7).prop_map(Dg::Near),
         2 => Just(Dg::Empty),
         2 => (0u8..32).prop_map(Dg::Prefix),
         1 => Just(Dg::Extended),
@@ -130,7 +162,11 @@ pub struct FsmCase {
     pub ops: Vec<FOp>,
 }
 
-const COOKIES: [&str; 4] = ["cookie", "", "a much longer shared secret with spaces", "κουλουράκι"];
+pub const LONG_HEX: &str = "9f86d081884c7d659a2feaa0c55ad015a3bf4f1b2b0b822cd15d6c15b0f00a08";
+pub const LONG_TEXT: &str = "correct horse battery staple / correct horse battery staple / correct horse battery staple / 0123456789";
+const COOKIES: [&str; 6] = ["cookie", "", "a much longer shared secret with spaces", "κουλουράκι", LONG_HEX, LONG_TEXT];
+/// cookies of the node in the adversary part: the short one, a 64-character hex string, a 100+ character phrase
+pub const ADV_COOKIES: [&str; 3] = [REAL, LONG_HEX, LONG_TEXT];
 
 #[derive(Clone, Copy, Debug, PartialEq, Eq)]
 enum M {
@@ -292,8 +328,8 @@ impl Part for C17Fsm {
     fn strategy(_tier: Tier) -> BoxedStrategy<FsmCase> {
         // half of the sequences start with the legitimate prefix so that the digest step is reached
         let op = prop_oneof![8 => amsg_strategy().prop_map(FOp::Msg), 2 => Just(FOp::StartChallenge)];
-        let dgs = prop_oneof![4 => Just(Dg::Correct), 2 => Just(Dg::WrongCookie), 2 => Just(Dg::Empty), 2 => (0u8..32).prop_map(Dg::Prefix), 1 => Just(Dg::Extended), 2 => any::<u8>().prop_map(Dg::Flip), 1 => Just(Dg::Zero32)];
-        (any::<bool>(), any::<bool>(), 0u8..4, any::<bool>(), dgs, any::<u32>(), proptest::collection::vec(op, 0..8))
+        let dgs = prop_oneof![4 => Just(Dg::Correct), 2 => Just(Dg::WrongCookie), 3 => (0u8..7).prop_map(Dg::Near), 2 => Just(Dg::Empty), 2 => (0u8..32).prop_map(Dg::Prefix), 1 => Just(Dg::Extended), 2 => any::<u8>().prop_map(Dg::Flip), 1 => Just(Dg::Zero32)];
+        (any::<bool>(), any::<bool>(), 0u8..6, any::<bool>(), dgs, any::<u32>(), proptest::collection::vec(op, 0..8))
             .prop_map(|(server, start_wcs, cookie, legit_prefix, dg, c, tail)| {
                 let mut ops = vec![];
                 if legit_prefix {
@@ -443,6 +479,12 @@ pub struct AdvCase {
     pub steps: Vec<AStep>,
     pub frag: Vec<u8>,
     pub schedule: Vec<u8>,
+    /// which of `ADV_COOKIES` the node uses
+    #[serde(default)]
+    pub cookie: u8,
+    /// which near-miss cookie a peer that does not know the cookie computes its digests with
+    #[serde(default)]
+    pub near: u8,
 }
 
 #[derive(Default)]
@@ -497,8 +539,8 @@ fn adv_strategy(tier: Tier) -> BoxedStrategy<AdvCase> {
         3 => Just(AStep::Wait),
         1 => Just(AStep::LocalSpawn),
     ];
-    (any::<bool>(), prop_oneof![3 => Just(0u8), 2 => Just(1u8), 1 => Just(2u8)], proptest::collection::vec(step, 1..=max), proptest::collection::vec(prop_oneof![Just(0u8), Just(1), Just(2), Just(3), Just(7), Just(64)], 0..4), gen::schedule(160))
-        .prop_map(|(server_side, name, steps, frag, schedule)| AdvCase { server_side, name, steps, frag, schedule })
+    (any::<bool>(), prop_oneof![3 => Just(0u8), 2 => Just(1u8), 1 => Just(2u8)], proptest::collection::vec(step, 1..=max), proptest::collection::vec(prop_oneof![Just(0u8), Just(1), Just(2), Just(3), Just(7), Just(64)], 0..4), gen::schedule(160), prop_oneof![2 => Just(0u8), 1 => Just(1u8), 1 => Just(2u8)], 0u8..7)
+        .prop_map(|(server_side, name, steps, frag, schedule, cookie, near)| AdvCase { server_side, name, steps, frag, schedule, cookie, near })
         .boxed()
 }
 
@@ -530,7 +572,7 @@ fn run_adv(case: &AdvCase, want_trace: bool) -> AdvResult {
         let peer = link.raw(1);
         let (got2, obs2, shared2, case2, peer2, link2) = (got.clone(), obs.clone(), shared.clone(), case.clone(), peer.clone(), link.clone());
         let script = async move {
-            let node = spawn_node(0, "a@host", REAL, None).await;
+            let node = spawn_node(0, "a@host", ADV_COOKIES[case.cookie as usize % 3], None).await;
             let mut probe_pids = vec![];
             let mut probes = vec![];
             for i in 0..2usize {
@@ -581,7 +623,7 @@ fn run_adv(case: &AdvCase, want_trace: bool) -> AdvResult {
                 };
                 let peer3 = peer2.clone();
                 let send_auth = move |am: &AMsg, nc: Option<u32>, nr: Option<u32>, auth_sent: &mut Vec<(usize, AMsg)>| {
-                    let wire = build_auth(am, REAL, nc.unwrap_or(0), nr.unwrap_or(0));
+                    let wire = build_auth(am, ADV_COOKIES[case2.cookie as usize % 3], nc.unwrap_or(0), nr.unwrap_or(0));
                     log(Ev::Note(format!("peer sends auth {am:?}")));
                     auth_sent.push((i, am.clone()));
                     peer3.send(&NetworkMessage { message: Some(meta::network_message::Message::Auth(wire)) });
@@ -611,7 +653,7 @@ fn run_adv(case: &AdvCase, want_trace: bool) -> AdvResult {
                             absorb(peer2.recv(), &mut frames_seen, &mut node_challenge, &mut node_reply, &mut status_seen, &mut name_seen);
                             waited += 1;
                         }
-                        let dg = if *knows { Dg::Correct } else { Dg::WrongCookie };
+                        let dg = if *knows { Dg::Correct } else { Dg::Near(case2.near) };
                         let am = if case2.server_side {
                             match sent {
                                 0 => Some(AMsg::Name { who: case2.name, nonce: 5 }),
@@ -961,13 +1003,13 @@ impl Part for C17Adv {
         let full = |server_side: bool, tail: Vec<AStep>| {
             let mut steps = vec![AStep::Honest { knows: true }, AStep::Honest { knows: true }, AStep::Honest { knows: true }];
             steps.extend(tail);
-            AdvCase { server_side, name: 0, steps, frag: vec![], schedule: vec![] }
+            AdvCase { server_side, name: 0, steps, frag: vec![], schedule: vec![], cookie: 0, near: 0 }
         };
         vec![
             full(true, vec![AStep::Cast { target: Target::Probe(0), good: true }, AStep::Cast { target: Target::Sneaky, good: true }, AStep::Wait, AStep::Wait]),
             full(false, vec![AStep::Call { target: Target::Probe(1), good: true }, AStep::Spawn { named: true }, AStep::PgJoin, AStep::Wait]),
-            AdvCase { server_side: true, name: 0, steps: vec![AStep::Honest { knows: true }, AStep::Auth(AMsg::ClientChallenge(Dg::Empty, 1)), AStep::Cast { target: Target::Probe(0), good: true }, AStep::Wait], frag: vec![1], schedule: vec![] },
-            AdvCase { server_side: true, name: 1, steps: vec![AStep::Cast { target: Target::Probe(0), good: true }, AStep::Spawn { named: true }, AStep::PgJoin, AStep::Honest { knows: false }, AStep::Honest { knows: false }, AStep::Wait], frag: vec![], schedule: vec![] },
+            AdvCase { server_side: true, name: 0, steps: vec![AStep::Honest { knows: true }, AStep::Auth(AMsg::ClientChallenge(Dg::Empty, 1)), AStep::Cast { target: Target::Probe(0), good: true }, AStep::Wait], frag: vec![1], schedule: vec![], cookie: 0, near: 0 },
+            AdvCase { server_side: true, name: 1, steps: vec![AStep::Cast { target: Target::Probe(0), good: true }, AStep::Spawn { named: true }, AStep::PgJoin, AStep::Honest { knows: false }, AStep::Honest { knows: false }, AStep::Wait], frag: vec![], schedule: vec![], cookie: 0, near: 0 },
         ]
     }
     fn run(case: &AdvCase, want_trace: bool) -> Outcome {
